@@ -212,8 +212,8 @@ def run(ctx):
     ctx.pmap("mzcheck.checks.c02", "task_structured", st)
     thin_tasks = [dict(kind=k, n=n, transpose=tr) for k in ("ladder", "ladder_cut", "corridor") for n in ((129, 131) if ctx.quick else (129, 131, 200, 257, 300))
                   for tr in (False, True)]
-    # shortest paths of more than 1000 (thorough: 3000, 10000) cells: corridors and two-wide ladders, both orientations
-    thin_tasks += [dict(kind=k, n=n, transpose=tr) for k in ("corridor", "ladder_cut") for n in ((1100,) if ctx.quick else (1100, 3001, 10007)) for tr in (False, True)]
+    # shortest paths of more than 1000 (thorough: 3000) cells: corridors and two-wide ladders, both orientations
+    thin_tasks += [dict(kind=k, n=n, transpose=tr) for k in ("corridor", "ladder_cut") for n in ((1100,) if ctx.quick else (1100, 3001)) for tr in (False, True)]
     ctx.pmap("mzcheck.checks.c02", "task_thin", thin_tasks)
     for hs in (("7",) if ctx.quick else ("1", "4", "7", "4242")):  # slices again in interpreters with other hash seeds (iteration order of sets / dicts of strings)
         ctx.pmap("mzcheck.checks.c02", "task", [t for t in tasks if t["shape"][0] * t["shape"][1] <= 6] + tasks[-16::5], hashseed=hs)
